@@ -1529,6 +1529,88 @@ fn cmp_backend(
 	});
 }
 
+/// C4: the hash-only VecBackend (`VecBackend::new_hash_only()`: node hashes kept, leaf data dropped) under random
+/// push / rewind programs: size, root and a Merkle proof of a random present leaf after every step, against the
+/// MMR built from scratch over the model's leaf list.
+fn section_c4(run: &Run, seed: u64, n_programs: usize) {
+	let empty = Bitmap::new();
+	for pi in 0..n_programs {
+		let mut pr = Prng::new(seed ^ 0xC4C4 ^ ((pi as u64) << 24));
+		let mut be: VecBackend<TestElem> = VecBackend::new_hash_only();
+		let mut cur: Vec<TestElem> = vec![];
+		let mut size = 0u64;
+		let steps = 8 + pr.usize_below(30);
+		let mut trace: Vec<String> = vec![];
+		for _ in 0..steps {
+			let rewind = !cur.is_empty() && pr.chance(1, 3);
+			if rewind {
+				// back to the MMR of the first n leaves (any n below the current count, also n == count: a no-op rewind)
+				let n = pr.usize_below(cur.len() + 1).max(1);
+				let target = RefMMR::from_elems(&cur[..n], false).size();
+				let mut pm = PMMR::at(&mut be, size);
+				trace.push(format!("rewind to {} leaves (size {})", n, target));
+				if let Err(e) = pm.rewind(target, &empty) {
+					run.violation("section=C4;backend=hash_only;fn=PMMR::rewind;event=error", &e, json!({"program": pi, "steps": trace}));
+					return;
+				}
+				size = pm.unpruned_size();
+				cur.truncate(n);
+				run.count("C4.hash_only_rewinds", 1);
+			} else {
+				let k = 1 + pr.usize_below(4);
+				let mut pm = PMMR::at(&mut be, size);
+				for _ in 0..k {
+					let e = TestElem([pr.next_u32(), pr.next_u32(), pr.next_u32(), pr.next_u32()]);
+					if let Err(e) = pm.push(&e) {
+						run.violation("section=C4;backend=hash_only;fn=PMMR::push;event=error", &e, json!({"program": pi, "steps": trace}));
+						return;
+					}
+					cur.push(e);
+				}
+				size = pm.unpruned_size();
+				trace.push(format!("push {} (now {} leaves)", k, cur.len()));
+			}
+			let r = RefMMR::from_elems(&cur, false);
+			let pm = PMMR::at(&mut be, size);
+			let got_root = pm.root();
+			run.eval(&format!("C4:{}:{}", if rewind { "rewind" } else { "push" }, cur.len().min(40)), true);
+			run.count("C4.hash_only_states_compared", 1);
+			if size != r.size() || got_root.as_ref().ok() != Some(&r.root()) {
+				run.violation(
+					&format!("section=C4;backend=hash_only;after={};event=root_or_size_mismatch", if rewind { "rewind" } else { "push" }),
+					&format!("hash-only VecBackend: size {} root {:?}, the MMR of the same {} leaves by definition has size {} root {}", size, got_root, cur.len(), r.size(), r.root()),
+					json!({"program": pi, "seed": seed, "steps": trace}),
+				);
+				return;
+			}
+			// a proof of a present leaf must verify for that leaf (and not for another element)
+			let li = pr.usize_below(cur.len());
+			let pos0 = pmmr::insertion_to_pmmr_index(li as u64);
+			match pm.merkle_proof(pos0) {
+				Err(e) => {
+					run.violation("section=C4;backend=hash_only;fn=merkle_proof;event=error", &e, json!({"program": pi, "steps": trace, "leaf": li}));
+					return;
+				}
+				Ok(proof) => {
+					let root = r.root();
+					let ok = proof.verify(root, &cur[li], pos0).is_ok();
+					let other = TestElem([cur[li].0[0] ^ 1, cur[li].0[1], cur[li].0[2], cur[li].0[3]]);
+					let bad = proof.verify(root, &other, pos0).is_ok();
+					run.count("C4.hash_only_proofs_checked", 1);
+					if !ok || bad {
+						run.violation(
+							&format!("section=C4;backend=hash_only;fn=merkle_proof;event={}", if !ok { "honest_proof_fails" } else { "proof_verifies_for_another_element" }),
+							&format!("leaf {} of {} after {:?}", li, cur.len(), trace.last()),
+							json!({"program": pi, "seed": seed, "steps": trace, "leaf": li}),
+						);
+						return;
+					}
+				}
+			}
+		}
+	}
+}
+
 /// C2: rewind of the mutable PMMR over VecBackend: from one base MMR to every
 /// position, then pushes on top; plus random push/rewind programs.
 fn section_c2(run: &Run, seed: u64, rw_leaves: usize, n_programs: usize, budget_s: f64) {
@@ -2597,6 +2679,7 @@ fn main() {
 	section_c1(&run, seed, nl, cap(bud_c1));
 	eprintln!("[C07] C1 done at {:.1}s", t0.elapsed().as_secs_f64());
 	section_c2(&run, seed, c2_leaves, c2_programs, cap(bud_c2));
+	section_c4(&run, seed, run.tier.pick(300, 3000));
 	eprintln!("[C07] C2 done at {:.1}s", t0.elapsed().as_secs_f64());
 	let mut targets: Vec<usize> = vec![
 		1usize << c3_hi_bits,
